@@ -409,7 +409,7 @@ def run(ctx):
     if t is not None:
         tabs, info = t
         validate_translation(ctx, tabs, info)
-        ctx.coq_build(timeout=1200)
+        ctx.coq_build(props=('Props.v', 'PropsWhole.v', 'PropsIdem.v'), timeout=1200)
         exe = vf.build_driver(ctx)
     ctx.log('build done')
     if exe:
